@@ -306,12 +306,14 @@ func c13callers(c *core.Ctx, r *core.Reporter) {
 func runC13(c *core.Ctx, r *core.Reporter) {
 	c.BuildSSA()
 	c13callers(c, r)
+	c13foreign(c, r)
 	an := lenflow.New(c)
 	const push = "C13.push"
 	const own = "C13.own"
 	const retract = "C13.retract"
 	r.Rule(push, "every store that copies an entry across packages (into a table of a package other than the receiver, or of an entry read from another package's table) is control-dependent on every path on (a) the entry's Export flag (or Export was just set true) and (b) a lookup showing the slot empty or owned by the pushing package; Import (explicit import through the Go extension interface) is exempt", 8)
 	r.Rule(own, "a table of a package (vars, funcs, classes, lambdas) is assigned a fresh map only under a test that the table is nil (construction); a wholesale reset loses the package's own definitions", 3)
+	r.Rule("C13.stale", "a method of Package that deletes an own function from its funcs table (un-definition), and retracts it from its users, also rewrites the lambda that calls already compiled in each of those packages are bound to: otherwise the removed function stays callable through them", 2)
 	r.Rule(retract, "a delete from another package's table is control-dependent on the entry's owner being the retracting package; every method that deletes an own function or variable also retracts it from the users' tables", 3)
 	for _, fn := range c.ModuleFuncs() {
 		if fn.Pkg == nil || fn.Pkg.Pkg.Path() != core.SlipPath {
@@ -383,6 +385,12 @@ func runC13(c *core.Ctx, r *core.Reporter) {
 						}
 						return true
 					})
+					// ... or the slot was emptied on every path here: a delete of the same key from the same table
+					// dominates the store and no store into that table lies between them (Undefine deletes the own
+					// entry and then lets the exported function of a used package show through again)
+					if !slot {
+						slot = slotJustDeleted(fn, x, owner, field)
+					}
 					// Export was just set true on this entry
 					if !exported && storesTrueTo(fn, x.Value, "Export", x) {
 						exported = true
@@ -453,9 +461,46 @@ func runC13(c *core.Ctx, r *core.Reporter) {
 						if _, ok := condFromLookup(bo, owner, field, 0); ok && (condReadsAnyField(bo, "Pkg")) {
 							owned = true
 						}
+						// identity with the entry held in the retracting package's own table (`xv == vv` with
+						// vv := obj.vars[name]) proves the same ownership
+						if recv != nil {
+							for _, pair := range [][2]ssa.Value{{bo.X, bo.Y}, {bo.Y, bo.X}} {
+								uo, uf := entrySource(pair[0], 0)
+								oo, of := entrySource(pair[1], 0)
+								if uo != nil && oo != nil && uf == field && of == field && sameValue(uo, owner) && sameValue(oo, recv) {
+									owned = true
+								}
+							}
+						}
 					}
 					key := fmt.Sprintf("%s|delete(%s)", core.SSAName(fn), ownerDesc(owner, recv)+"."+field)
 					r.Decide(owned, retract, key, c.Pos(x.Pos()), fmt.Sprintf("deletion from another package's table is conditional on the entry's owner (entry.Pkg == this package): %v", owned))
+				}
+			}
+		}
+		if in, ok := deletesOwn["funcs"]; ok {
+			// C13.stale: un-defining a function must also reach the calls already compiled to it. They are
+			// bound to the lambda registered under the name in the package's lambdas table; unless that lambda
+			// is rewritten too (back to the undefined placeholder) (g) keeps running the body of f after
+			// (fmakunbound 'f).
+			okOwn := mustPatchLambdasAfter(fn, in, recv)
+			r.Decide(okOwn, "C13.stale", core.SSAName(fn)+"|own compiled calls", c.Pos(in.Pos()), fmt.Sprintf("the method deletes an own function; the lambda compiled calls are bound to is rewritten as well: %v", okOwn))
+			for _, b := range fn.Blocks {
+				for _, in2 := range b.Instrs {
+					call, ok := in2.(*ssa.Call)
+					if !ok {
+						continue
+					}
+					bi, ok := call.Call.Value.(*ssa.Builtin)
+					if !ok || bi.Name() != "delete" || len(call.Call.Args) != 2 {
+						continue
+					}
+					owner, field, ok := tableOf(call.Call.Args[0])
+					if !ok || field != "funcs" || sameValue(owner, recv) {
+						continue
+					}
+					okU := mustPatchLambdasAfter(fn, call, owner)
+					r.Decide(okU, "C13.stale", core.SSAName(fn)+"|users' compiled calls", c.Pos(call.Pos()), fmt.Sprintf("the entry is retracted from a user's table; that user's lambda for the name is rewritten as well: %v", okU))
 				}
 			}
 		}
@@ -583,4 +628,125 @@ func c13resolve(c *core.Ctx, r *core.Reporter) {
 		}
 		r.Decide(testsExport, rule, core.SSAName(fn), c.Pos(unpack.Pos()), fmt.Sprintf("branches on the entry's Export flag: %v", testsExport))
 	}
+}
+
+// slotJustDeleted: a `delete(owner.field, key)` with the same key dominates the map update mu, and no other
+// update of that table can execute between the two.
+func slotJustDeleted(fn *ssa.Function, mu *ssa.MapUpdate, owner ssa.Value, field string) bool {
+	for _, b := range fn.Blocks {
+		for _, in := range b.Instrs {
+			call, ok := in.(*ssa.Call)
+			if !ok {
+				continue
+			}
+			bi, ok := call.Call.Value.(*ssa.Builtin)
+			if !ok || bi.Name() != "delete" || len(call.Call.Args) != 2 {
+				continue
+			}
+			o, f, ok := tableOf(call.Call.Args[0])
+			if !ok || f != field || !sameValue(o, owner) || !sameValue(call.Call.Args[1], mu.Key) {
+				continue
+			}
+			if !instrDominates(call, mu) {
+				continue
+			}
+			clean := true
+			for _, b2 := range fn.Blocks {
+				for _, in2 := range b2.Instrs {
+					mu2, ok := in2.(*ssa.MapUpdate)
+					if !ok || mu2 == mu {
+						continue
+					}
+					if o2, f2, ok := tableOf(mu2.Map); ok && f2 == field && sameValue(o2, owner) {
+						if reachesInstr(call, mu2) && reachesInstr(mu2, mu) {
+							clean = false
+						}
+					}
+				}
+			}
+			if clean {
+				return true
+			}
+		}
+	}
+	return false
+}
+
+// reachesInstr: control can flow from a to b.
+func reachesInstr(a, b ssa.Instruction) bool {
+	if a.Block() == b.Block() {
+		ia, ib := -1, -1
+		for i, in := range a.Block().Instrs {
+			if in == a {
+				ia = i
+			}
+			if in == b {
+				ib = i
+			}
+		}
+		if ia < ib {
+			return true
+		}
+	}
+	seen := map[*ssa.BasicBlock]bool{}
+	stack := append([]*ssa.BasicBlock(nil), a.Block().Succs...)
+	for len(stack) > 0 {
+		blk := stack[len(stack)-1]
+		stack = stack[:len(stack)-1]
+		if seen[blk] {
+			continue
+		}
+		seen[blk] = true
+		if blk == b.Block() {
+			return true
+		}
+		stack = append(stack, blk.Succs...)
+	}
+	return false
+}
+
+// mustPatchLambdasAfter: every path from instruction `from` to a return of fn passes an instruction that rewrites
+// the lambdas entry of package `owner` (a direct store, or a call of a Package method on owner that does so on
+// its receiver).
+func mustPatchLambdasAfter(fn *ssa.Function, from ssa.Instruction, owner ssa.Value) bool {
+	pass := map[*ssa.BasicBlock]int{}
+	fromIdx := -1
+	for _, b := range fn.Blocks {
+		for i, in := range b.Instrs {
+			if in == from {
+				fromIdx = i
+			}
+			patches := false
+			switch x := in.(type) {
+			case *ssa.MapUpdate:
+				if o := packageOfTable(x.Map, "lambdas"); o != nil && sameValue(o, owner) {
+					patches = true
+				}
+			case *ssa.Store:
+				if fa, ok := x.Addr.(*ssa.FieldAddr); ok && fieldName(fa) == "Forms" &&
+					core.IsNamed(fa.X.Type(), core.SlipPath, "Lambda") && lambdaFromLambdasOf(fa.X, owner, 0) {
+					patches = true
+				}
+			case ssa.CallInstruction:
+				cal := x.Common().StaticCallee()
+				if cal != nil && cal.Pkg != nil && cal.Pkg.Pkg.Path() == core.SlipPath && cal.Signature.Recv() != nil &&
+					len(x.Common().Args) > 0 && len(cal.Params) > 0 && sameValue(x.Common().Args[0], owner) {
+					patches = patchesLambdasOf(cal, cal.Params[0], 1, map[*ssa.Function]bool{cal: true})
+				}
+			}
+			if patches {
+				if b == from.Block() && fromIdx >= 0 && i > fromIdx {
+					if cur, has := pass[b]; !has || cur <= fromIdx {
+						pass[b] = i
+					}
+				} else if _, has := pass[b]; !has {
+					pass[b] = i
+				}
+			}
+		}
+	}
+	if fromIdx < 0 {
+		return false
+	}
+	return !escapes(from.Block(), fromIdx, pass)
 }
